@@ -31,6 +31,7 @@ import (
 )
 
 type runSpec struct {
+	Echo   int    `json:"echo"` // > 0: call the "echo" step with payload number Echo-1 instead of "step"
 	ID     string `json:"id"`
 	Sig    bool   `json:"sig"`    // pass a signalsToStep channel and send one signal
 	BadSig bool   `json:"badsig"` // the signal's payload is rejected by the handler's schema
@@ -41,6 +42,7 @@ type runSpec struct {
 type action struct {
 	A string `json:"a"`
 	R string `json:"r"`
+	N int    `json:"n"` // writes: number of fragments (2 = split); fills: fragments taken
 }
 
 type workload struct {
@@ -90,11 +92,12 @@ type scenario struct {
 }
 
 type execResult struct {
-	St      string `json:"st"` // ok | err | none
-	Output  string `json:"output,omitempty"`
-	TokenOK bool   `json:"token_ok"`
-	Err     string `json:"err,omitempty"`
-	Returns int    `json:"returns"`
+	Fidelity string `json:"fidelity,omitempty"` // echo runs: "" = same as in-process, else what differs
+	St       string `json:"st"`                 // ok | err | none
+	Output   string `json:"output,omitempty"`
+	TokenOK  bool   `json:"token_ok"`
+	Err      string `json:"err,omitempty"`
+	Returns  int    `json:"returns"`
 }
 
 type result struct {
@@ -151,6 +154,7 @@ type world struct {
 	cancel     context.CancelFunc
 	spawned    map[string]bool
 	stepGate   func(run string)
+	plug       *schema.CallableSchema
 }
 
 func prop(t schema.Type) *schema.PropertySchema {
@@ -198,7 +202,7 @@ func (w *world) plugin() *schema.CallableSchema {
 			return "success", stepOut{Message: "hello " + in.Name}
 		},
 	)
-	return schema.NewCallableSchema(step)
+	return schema.NewCallableSchema(step, echoStep())
 }
 
 // ------------------------------------------------------------------ hook classification
@@ -365,12 +369,37 @@ func (w *world) spawnCaller(id string) {
 		if from != nil {
 			fromW = from
 		}
-		r := w.cli.Execute(schema.Input{RunID: id, ID: "step",
-			InputData: map[string]any{"name": id, "beh": rs.Beh}}, toR, fromW)
+		stepID := "step"
+		var payload any = map[string]any{"name": id, "beh": rs.Beh}
+		var want *echoExpect
+		if rs.Echo > 0 {
+			stepID = "echo"
+			ins := echoInputs()
+			payload = ins[(rs.Echo-1)%len(ins)]
+			x := inProcess(w.plug, id+"-inprocess", payload)
+			want = &x
+		}
+		r := w.cli.Execute(schema.Input{RunID: id, ID: stepID, InputData: payload}, toR, fromW)
 		w.mu.Lock()
 		defer w.mu.Unlock()
 		e := w.res[id]
 		e.Returns++
+		if want != nil {
+			switch {
+			case want.Err != "" && r.Error == nil:
+				e.Fidelity = "in-process call fails (" + want.Err + ") but Execute succeeded"
+			case want.Err == "" && r.Error != nil:
+				e.Fidelity = "in-process call succeeds but Execute failed: " + r.Error.Error()
+			case want.Err == "" && (r.OutputID != want.OutputID || !sameWire(r.OutputData, want.Wire)):
+				e.Fidelity = fmt.Sprintf("output differs: over ATP (%s, %#v), in-process (%s, %#v)", r.OutputID, r.OutputData, want.OutputID, want.Wire)
+			}
+			if r.Error != nil {
+				e.St, e.Err = "err", r.Error.Error()
+			} else {
+				e.St, e.Output, e.TokenOK = "ok", r.OutputID, e.Fidelity == ""
+			}
+			return
+		}
 		if r.Error != nil {
 			e.St, e.Err = "err", r.Error.Error()
 			if strings.Contains(e.Err, "failed to write work start") {
@@ -450,6 +479,7 @@ func (w *world) do(a action) error {
 	case "SendLock":
 		return rel("c.send.pre|ws|" + a.R)
 	case "SendWrite", "WWrite", "CloseWrite":
+		w.c2s.Force(a.N == 2, 0)
 		return rel("t.c2s.write.pre")
 	case "SendDone", "SendFail", "Take", "WDone", "CloseWritten", "LoopDecode", "SrvDecode", "StepWritten",
 		"HWritten", "SrvCrashed", "StepEmit", "StepEmitted", "SrvLateClose":
@@ -458,6 +488,7 @@ func (w *world) do(a action) error {
 	case "GetResult":
 		return rel("c.wait.pre|" + a.R)
 	case "LoopFill", "LoopDecodeErr":
+		w.s2c.Force(false, a.N)
 		return rel("t.s2c.read.pre")
 	case "LoopHandle":
 		// whichever gate the read loop reached for this message
@@ -494,6 +525,7 @@ func (w *world) do(a action) error {
 	case "CloseReturn":
 		return rel("c.close.wait.pre")
 	case "SrvFill", "SrvDecodeErr":
+		w.c2s.Force(false, a.N)
 		return rel("t.c2s.read.pre")
 	case "SrvErrSend":
 		return rel("s.errq.pre|srvloop")
@@ -512,8 +544,9 @@ func (w *world) do(a action) error {
 	case "StepLock":
 		return rel("s.send.pre|2|" + a.R)
 	case "StepWrite", "HWrite":
+		w.s2c.Force(a.N == 2, 0)
 		return rel("t.s2c.write.pre")
-	case "SigFinish":
+	case "SigFinish", "SigFinishAs":
 		if w.s.IsParked("s.errq.pre|sig:" + a.R) {
 			return rel("s.errq.pre|sig:" + a.R)
 		}
@@ -538,9 +571,30 @@ func (w *world) start() error {
 	atp.VerifHook = w.s.Hook
 	w.c2s = sched.NewPipe("c2s", w.s, w.sc.Cap)
 	w.s2c = sched.NewPipe("s2c", w.s, w.sc.Cap)
+	if w.sc.Frag {
+		// seeded fragmentation and coalescing: messages split in two at a pseudo-random offset, reads
+		// take a pseudo-random number of the fragments available
+		seed := uint64(w.sc.Seed)*2654435761 + 12345
+		next := func() uint64 { seed ^= seed << 13; seed ^= seed >> 7; seed ^= seed << 17; return seed }
+		for _, p := range []*sched.Pipe{w.c2s, w.s2c} {
+			p.SplitAt = func(n int, size int) int {
+				if n <= 2 || size < 2 || next()%3 == 0 { // the handshake is not fragmented
+					return 0
+				}
+				return 1 + int(next()%uint64(size-1))
+			}
+			p.MaxFrags = func(n int, avail int) int {
+				if next()%2 == 0 {
+					return 0
+				}
+				return 1 + int(next()%uint64(avail))
+			}
+		}
+	}
 	ctx, cancel := context.WithCancel(context.Background())
 	w.cancel = cancel
 	plug := w.plugin()
+	w.plug = w.plugin() // a second instance for the in-process comparison (own step data)
 	w.srvC = make(chan int, 1)
 	go func() {
 		errs := atp.RunATPServer(ctx, sched.ReadEnd{P: w.c2s}, sched.WriteEnd{P: w.s2c}, plug)
@@ -643,6 +697,9 @@ func runScenario(sc scenario) (res *result) {
 		return
 	}
 	defer func() {
+		// the session is over: what the clean-up below provokes (context cancellation) is not part of it
+		res.Events = w.s.Events()
+		w.s.StopRecording()
 		w.s.SetMode(sched.Free)
 		w.cancel()
 		w.mu.Lock()
@@ -650,7 +707,6 @@ func runScenario(sc scenario) (res *result) {
 			res.Results[id] = *e
 		}
 		w.mu.Unlock()
-		res.Events = w.s.Events()
 		atp.VerifHook = nil
 	}()
 	wantClose := false
